@@ -16,7 +16,7 @@ import itertools
 from ..absint import eval_term
 from ..facts import AnalysisError
 from ..sym import enum_members
-from ..terms import const, contains, show, strip_sites
+from ..terms import const, contains, show, strip_sites, subterms
 from ..util import InlineOnly, NoInline, P, Scan, calls_to, engine, loc, param_at
 
 SVC = "service.SimpleService"
@@ -56,10 +56,21 @@ def check(run, prog, tier):
 
     failures = {}
     cases = 0
-    for svc_ok, iv_ok, known, mtype, rcode, hres, multi in itertools.product(
+    # state of the endpoint that the decision consults besides the documented inputs (e.g. a "warned once" flag):
+    # the table must hold for every value of it
+    free = []
+    for p in paths:
+        for c, _, _, _ in p.conds:
+            for s_ in subterms(c):
+                if s_[0] == "attr" and s_[1] == me and s_[2] not in ("service_id", "version_major", "methods", "log", "instance_id", "version_minor") and s_ not in free:
+                    free.append(s_)
+    if len(free) > 3:
+        raise AnalysisError(f"{mr.qual}: decision consults {len(free)} undocumented attributes {[show(f) for f in free]}")
+    for svc_ok, iv_ok, known, mtype, rcode, hres, multi, fvals in itertools.product(
             (True, False), (True, False), (True, False), ("REQUEST", "REQUEST_NO_RETURN", "NOTIFICATION", "RESPONSE"), ("E_OK", "E_NOT_OK"),
-            ("bytes", "none", "malformed"), (False, True)):
+            ("bytes", "none", "malformed"), (False, True), list(itertools.product((False, True), repeat=len(free)))):
         cases += 1
+        fmap = dict(zip(free, fvals))
         vals = {"service_id": 0x1111 if svc_ok else 0x2222, "interface_version": 3 if iv_ok else 4, "method_id": 7,
                 "message_type": mt[mtype], "return_code": rc[rcode], "payload": b"req"}
 
@@ -72,6 +83,8 @@ def check(run, prog, tier):
                 return 0x1111
             if tm == ("attr", me, "version_major"):
                 return 3
+            if tm in fmap:
+                return fmap[tm]
             if tm[0] == "call" and tm[1] == ("attr", ("attr", me, "methods"), "get"):
                 return HANDLER if known else None
             if tm[0] == "call" and tm[1][0] == "call" and tm[1][1] == ("attr", ("attr", me, "methods"), "get"):
@@ -115,7 +128,8 @@ def check(run, prog, tier):
         else:
             want = None
         sends = calls_to(p, send.qual)
-        desc = f"service {'ok' if svc_ok else 'other'}, interface {'ok' if iv_ok else 'other'}, method {'known' if known else 'unknown'}, {mtype}, {rcode}, handler {hres}, {'multicast' if multi else 'unicast'}"
+        desc = f"service {'ok' if svc_ok else 'other'}, interface {'ok' if iv_ok else 'other'}, method {'known' if known else 'unknown'}, {mtype}, {rcode}, handler {hres}, {'multicast' if multi else 'unicast'}" \
+            + "".join(f", {show(k)}={v}" for k, v in fmap.items())
         if not p.returns():
             failures.setdefault("R1:no-exception", f"{desc}: message_received raises {p.outcome[1]}")
             continue
